@@ -139,12 +139,22 @@ theorem C11_code_index_roundtrip (z : S2) (hz : S2Law z) (off len : Nat) (es : L
   rw [if_pos hall] at henc
   exact ⟨_, henc, CodecTie.index_code_roundtrip z hz off len es hw _ henc o0 l0⟩
 
+/-- the Go code itself (`Footer.Encode` / `Footer.Decode`, translated on every run): a footer with the engine's magic number and
+    handles below 2^64 round-trips; any other magic number is refused by the decoder -/
+theorem C11_code_footer_roundtrip (mo ml io il : Nat) (h1 : HandleWF ⟨mo, ml⟩) (h2 : HandleWF ⟨io, il⟩) (f0 : Nat × Nat × Nat × Nat × Nat) :
+    ∃ b, GenCodec.encodeFooter mo ml io il Consts.magic = some b ∧ b.length = 40 ∧
+      GenCodec.decodeFooter b f0 = some (mo, ml, io, il, Consts.magic) := by
+  refine ⟨_, CodecTie.encodeFooter_eq mo ml io il Consts.magic, encFooter_length _, ?_⟩
+  rw [CodecTie.decodeFooter_eq, (C11_footer_roundtrip { metaH := ⟨mo, ml⟩, indexH := ⟨io, il⟩, magic := Consts.magic } h1 h2 rfl).1]
+  rfl
+
 #print axioms C11_data_guard
 #print axioms C11_data_roundtrip
 #print axioms C11_code_data_encode
 #print axioms C11_code_data_roundtrip
 #print axioms C11_code_data_decode
 #print axioms C11_code_index_roundtrip
+#print axioms C11_code_footer_roundtrip
 #print axioms C11_index_roundtrip
 #print axioms C11_footer_roundtrip
 #print axioms C11_footer_magic
